@@ -141,7 +141,7 @@ class Dag:
 NUM_POOL = (0, 1, 2, 3, 5, 7, -1, -4, 10, 0.5, 1.5, -2.25, 0.1, 100, 12.75)
 TEXT_POOL = ('txt', 'b', 'Abc', 'z z', 'x', 'Q')
 NUMTEXT_POOL = ('7', '0', '-3', '1.5')
-SHEET_NAMES = ('S', 'Sh2', 'My Sheet', 'Calc 2', 'Data 1', 'T_1')
+SHEET_NAMES = ('S', 'Sh2', 'My Sheet', 'Calc 2', 'Copy (2)', 'Data 1', 'T_1')
 AGGS = ('SUM', 'AVERAGE', 'MIN', 'MAX', 'COUNT')
 
 
@@ -289,7 +289,20 @@ class SpecGen:
             n = self.filled[ds]
             w = self.width[ds]
             rows = (n + w - 1) // w
-            if rnd.random() < 0.5:
+            pick = rnd.random()
+            if pick < 0.2 and w >= 2:
+                # intersection of a band of columns and a row: both operands are only named
+                # (a column with a row, i.e. a single cell, is not generated: pycel cannot
+                # read a one-cell result of an intersection through _R_ at all, see section 8)
+                r = rnd.randint(1, rows)
+                col2 = rc_coord(1, 2)[:-1]
+                txt = f'{quote_sheet(ds)}!A:{col2} {quote_sheet(ds)}!{r}:{r}'
+                inter = [mk(ds, r, 1), mk(ds, r, 2)]
+                self.declared_extra += [mk(ds, rr, cc) for rr in range(1, rows + 1)
+                                        for cc in (1, 2) if rr != r]
+                self.declared_extra += [mk(ds, r, cc) for cc in range(3, w + 1)]
+                return txt, inter
+            if pick < 0.6:
                 c = rnd.randint(1, w)
                 col = rc_coord(1, c)[:-1]
                 txt = f'{quote_sheet(ds)}!{col}:{col}'
@@ -419,6 +432,23 @@ class SpecGen:
             a, pa, da = self.atom()
             b, pb, db = self.atom()
             return f'{a}{rnd.choice((">", "=", "<>", "<="))}{b}', pa + pb, da + db
+        if roll < 0.99 and depth == 0 and k.get('computed_refs'):
+            # a computed reference as the whole formula (value of another cell)
+            t = self.pick_cell()
+            ts, tc = split_addr(t)
+            if ts == self.cur_sheet:
+                tr, tcol = coord_rc(tc)
+                same = [a for a in self.defined() if split_addr(a)[0] == ts]
+                b = rnd.choice(same)
+                br, bcol = coord_rc(split_addr(b)[1])
+                if rnd.random() < 0.7:
+                    return (f'OFFSET({self.ref_text(b)},{tr - br},{tcol - bcol})', [t], [b])
+                return f'INDIRECT("{quote_sheet(ts)}!{tc}")', [t], []
+        if roll < 0.96 and k['ranges'] and depth == 0 and k.get('whole_range', True):
+            # a range where a scalar is expected: pycel takes the top-left cell
+            rect = self.pick_rect()
+            if rect and rect not in self.cse_blocks:
+                return self.range_text(*rect), [self.rect_addrs(rect)[0]], self.rect_addrs(rect)[1:]
         return self.atom()
 
     def formula(self):
@@ -435,7 +465,7 @@ class SpecGen:
         rnd, k = self.rnd, self.k
         n_sheets = rnd.randint(*k['n_sheets'])
         names = list(SHEET_NAMES)
-        main = rnd.choice(('S', 'S', 'Sh2', 'My Sheet', 'Calc 2'))
+        main = rnd.choice(('S', 'S', 'Sh2', 'My Sheet', 'Calc 2', 'Copy (2)'))
         names.remove(main)
         sheets = [main]
         self.data_sheet = None
@@ -538,7 +568,9 @@ class SpecGen:
         rect = (sheet, r1, c1, r2, c2)
         src = self.rect_addrs(rect)
         src_txt = self.range_text(*rect)
-        col0 = self.width[sheet] + 2 + 3 * n
+        # the first block touches the grid, so that ranges can span constants, formulas and
+        # members of the block; the second one stands apart
+        col0 = self.width[sheet] + 1 + 3 * n
         row0 = 1 + 4 * n
         kind = rnd.choice(('lift', 'lift2', 'scalar', 'trim', 'fill', 'reduce'))
         th, tw = h, w
@@ -569,6 +601,10 @@ class SpecGen:
         for a in self.rect_addrs(block):
             self.add({'a': a, 'cse': ref, 'f': f, 'p': list(prec), 'd': []})
         self.cse_blocks.append(block)
+        if n == 0 and rnd.random() < 0.5:
+            # constants right of the block: ranges can start in the block and end outside it
+            for r in range(row0, row0 + th):
+                self.add({'a': mk(sheet, r, col0 + tw), 'v': draw_const(rnd, ('num', 'float', 'text'))})
         return True
 
 
